@@ -29,15 +29,26 @@ RULE = ('BAM files produced by the spec-level encoder (Python twin of Coq Model.
         'length replacement, on sub-spans, after chained selections, on a chunk); multi-step: the same entries re-read '
         'after alignment_to_interval, columns read before a write and all columns of the written object after it in '
         'random orders, interval call before the write; two-file sessions: the file read while a second BAM '
-        'with a different reference dictionary is open, in every interleaving (whole, chunked in turn, intervals).  non-trivial = at least two '
+        'with a different reference dictionary is open, in every interleaving (whole, chunked in turn, intervals).  Round 6: auxiliary '
+        'areas built from typed fields of every value type A c C s S i I f Z H B (B with all subtypes) and of every length 0, 4..66, '
+        'the same record with and without its area in one file; every read-name length 1..254; position -1 / 2^31-1, refID -1 with '
+        'a mapped mate, negative next_refID / next_pos / tlen, each of the 12 flag bits alone and all together, 0 next to 65535 '
+        'CIGAR operations; files made of explicit gzip members (BGZF blocks, plain gzip members of other compression levels, empty '
+        'members / EOF blocks in the middle, with or without a final EOF block) whose borders lie on record borders, inside the 4 '
+        'block_size bytes, next to record borders, inside the header, one-byte members, with chunk sizes whose chunk borders '
+        'coincide with member borders.  non-trivial = at least two '
         'records that differ in name length, CIGAR count or l_seq parity')
 EXHAUSTIVE = {'quick': False, 'thorough': False}
 TIE = 'translator+correspondence'   # translate/gen_c16.py -> Gen/C16.v, Bridge/C16.v, theorem C16_source_tie; plus the
 # correspondence (header parse, block chain, field offsets, nibble unpack, CIGAR split, reference interval,
 # prepend-mode chunk reader and writer evaluated in Coq on the decompressed file bytes)
 ASSUMPTIONS = ['A-GZIP: Python gzip/zlib decompress a (multi-member) gzip/BGZF file to the concatenation of the member '
-               'payloads and file.read(n) returns n bytes unless the stream ends (BGZF framing is not modelled; the written '
-               "file's container is observed only: it ends with the 28-byte EOF block and gunzips)",
+               'payloads and file.read(n) returns n bytes unless the stream ends (BGZF framing / inflate are not modelled; the written '
+               "file's container is observed only: it ends with the 28-byte EOF block and gunzips).  Round 6: the read(n) half is "
+               'modelled (raw_read = _GzipReader.read, buffered_read = BufferedReader.read over a list of member payloads) and '
+               'C16_gzip_members_read / C16_gzip_members_file prove that for every split into members, empty ones included, it '
+               'equals reading the concatenated stream; that CPython behaves like raw_read / buffered_read stays an assumption, '
+               'exercised by the multi-member files of the generator',
                'A-VIEW: ndarray.view(dtype) on the (little-endian) host reads n bytes as sum b_i*256^i and np.int32 as the '
                "two's-complement value; C16_read_field_little_endian states what read_field computes under that reading",
                'the BAM header text is passed through uninterpreted',
@@ -97,6 +108,28 @@ def container_bytes(case, data):
     kind = case['container']['kind']
     if kind == 'gzip':
         return gzip.compress(data)
+    if kind == 'members':
+        # an explicit list of gzip members [size, how]: how = 'b' BGZF block, 'g' plain gzip member (gzip.compress),
+        # 'z' zlib-made gzip member with another compression level, 'e' the 28-byte BGZF EOF block (an EMPTY member,
+        # also in the middle of the file), size 0 = an empty member of that kind
+        out = b''
+        pos = 0
+        for n, how in case['container']['members']:
+            part = data[pos:pos + n]
+            pos += n
+            if how == 'e':
+                out += EOF_MARKER
+                pos -= n
+            elif how == 'b':
+                out += _bgzf_block(part)
+            elif how == 'g':
+                out += gzip.compress(part, 9)
+            else:
+                c = zlib.compressobj(1, zlib.DEFLATED, 31)
+                out += c.compress(part) + c.flush()
+        if pos < len(data):
+            out += _bgzf_block(data[pos:])
+        return out + (EOF_MARKER if case['container'].get('eof', True) else b'')
     out = b''
     pos = 0
     for n in case['container']['blocks']:
@@ -133,8 +166,10 @@ def _rec(rng, nrefs, name_len=None, n_cigar=None, l_seq=None, unmapped=None, tag
     if tags is None:
         tags = rng.random() < 0.4
     tagb = b''
-    if tags:
-        tagb = rng.choice([b'NMC\x03', b'XSZab\0', b'NMC\x00MDZ10A5\0', b'ZZB' + b'c\x02\0\0\0\x01\x0a', b'XAi\x0a\0\0\0'])
+    if isinstance(tags, (bytes, bytearray)):
+        tagb = bytes(tags)
+    elif tags:
+        tagb = _aux_area(rng) if rng.random() < 0.5 else rng.choice([b'NMC\x03', b'XSZab\0', b'NMC\x00MDZ10A5\0', b'ZZB' + b'c\x02\0\0\0\x01\x0a', b'XAi\x0a\0\0\0'])
     if end10:
         if tagb:
             tagb = tagb[:-1] + b'\n'
@@ -151,6 +186,125 @@ def _rec(rng, nrefs, name_len=None, n_cigar=None, l_seq=None, unmapped=None, tag
                 name=name.hex(), cigar=cig, seq=seq, qual=qual,
                 nref=-1 if nrefs == 0 or rng.random() < 0.5 else rng.randrange(nrefs),
                 npos=rng.choice([-1, 0, 12345]), tlen=rng.choice([0, -300, 300, -2 ** 31, 2 ** 31 - 1]), tags=tagb.hex())
+
+
+# ----------------------------------------------------------------------------- auxiliary (TAG) area, SAMv1 4.2.4
+def _aux(rng, ty=None):
+    """one typed auxiliary field: tag[2] val_type[1] value; all of A c C s S i I f Z H B (B with every subtype)"""
+    tag = bytes([rng.choice(b'ABCMNXYZabxyz'), rng.choice(b'ABDMSZabz0129')])
+    ty = ty or rng.choice('AcCsSiIfZHB')
+    if ty == 'A':
+        return tag + b'A' + bytes([rng.choice(b'!~aZ09\n')])
+    if ty in 'cCsSiI':
+        fmt = {'c': '<b', 'C': '<B', 's': '<h', 'S': '<H', 'i': '<i', 'I': '<I'}[ty]
+        lo, hi = {'c': (-128, 127), 'C': (0, 255), 's': (-2 ** 15, 2 ** 15 - 1), 'S': (0, 2 ** 16 - 1),
+                  'i': (-2 ** 31, 2 ** 31 - 1), 'I': (0, 2 ** 32 - 1)}[ty]
+        return tag + ty.encode() + struct.pack(fmt, rng.choice([lo, hi, 0, 10, rng.randint(lo, hi)]))
+    if ty == 'f':
+        return tag + b'f' + struct.pack('<f', rng.choice([0.0, -1.5, 3.25e10, 1e-30]))
+    if ty == 'Z':
+        return tag + b'Z' + bytes(rng.choice(b' !10A5^ACgt~:;') for _ in range(rng.choice([0, 1, 2, 5, 13, 40]))) + b'\0'
+    if ty == 'H':
+        return tag + b'H' + bytes(rng.choice(b'0123456789ABCDEF') for _ in range(2 * rng.choice([0, 1, 2, 7]))) + b'\0'
+    sub = rng.choice('cCsSiIf')
+    n = rng.choice([0, 1, 2, 3, 7])
+    if sub == 'f':
+        vals = b''.join(struct.pack('<f', rng.choice([0.0, 2.5, -1e9])) for _ in range(n))
+    else:
+        fmt = {'c': '<b', 'C': '<B', 's': '<h', 'S': '<H', 'i': '<i', 'I': '<I'}[sub]
+        lo, hi = {'c': (-128, 127), 'C': (0, 255), 's': (-2 ** 15, 2 ** 15 - 1), 'S': (0, 2 ** 16 - 1),
+                  'i': (-2 ** 31, 2 ** 31 - 1), 'I': (0, 2 ** 32 - 1)}[sub]
+        vals = b''.join(struct.pack(fmt, rng.choice([lo, hi, 10, rng.randint(lo, hi)])) for _ in range(n))
+    return tag + b'B' + sub.encode() + struct.pack('<i', n) + vals
+
+
+def _aux_area(rng, types=None, n=None):
+    if types is None:
+        types = [rng.choice('AcCsSiIfZHB') for _ in range(n if n is not None else rng.choice([1, 1, 2, 3, 5]))]
+    return b''.join(_aux(rng, t) for t in types)
+
+
+def _aux_of_len(n):
+    """an auxiliary area of exactly n bytes (n = 0 or n >= 4): one Z field, or a C field followed by a Z field"""
+    if n == 0:
+        return b''
+    assert n >= 4
+    return b'XLZ' + bytes(65 + (i * 7) % 26 for i in range(n - 4)) + b'\0'
+
+
+FLAG_BITS12 = [1 << i for i in range(12)]
+
+
+def _limit_rec(rng, nrefs, **kw):
+    """a record at the limits of the fixed fields; the variable parts stay small unless asked for"""
+    r = _rec(rng, nrefs, name_len=kw.pop('name_len', rng.randint(1, 6)), n_cigar=kw.pop('n_cigar', rng.randint(0, 3)),
+             l_seq=kw.pop('l_seq', rng.randint(0, 6)), unmapped=kw.pop('unmapped', False), tags=kw.pop('tags', False))
+    r.update(kw)
+    return r
+
+
+def _no_ref_len(r):
+    """make the reference length of r zero (only I, S, H, P operations) so that pos + length stays inside int32"""
+    r['cigar'] = [[c[0] if c[0] in (1, 4, 5, 6) else (1, 4, 5, 6)[c[0] % 4], c[1]] for c in r['cigar']]
+    return r
+
+
+def _members(rng, case, how):
+    """split the decompressed stream of `case` into gzip members: borders on / next to record borders, inside the 4
+    block_size bytes, inside the header, empty members in between"""
+    data = stream_bytes(case)
+    hdr = len(enc_header(bytes.fromhex(case['text']), case['refs']))
+    bounds, acc = [], hdr
+    for r in case['recs']:
+        bounds.append(acc)
+        acc += len(enc_rec(r))
+    bounds.append(acc)
+    tot = acc
+    cuts = set()
+    if how == 'on':               # every member holds whole records
+        cuts = set(bounds)
+    elif how == 'in_size':        # every border lies inside a block_size field (1..3 bytes of it in the old member)
+        cuts = {b + rng.choice([1, 2, 3]) for b in bounds[:-1]}
+    elif how == 'near':           # one byte before / after a record border, 4 and 36 bytes into a record
+        cuts = {min(tot, max(0, b + rng.choice([-1, 1, 4, 35, 36, 37]))) for b in bounds}
+    elif how == 'bytes':          # one-byte members over the first records (and the header)
+        cuts = set(range(0, min(tot, hdr + 70)))
+    elif how == 'header':         # borders inside the header only: magic, l_text, text, n_ref, names
+        cuts = set(rng.sample(range(1, hdr + 1), min(hdr, rng.randint(1, 6))))
+    else:                         # random borders
+        cuts = set(rng.sample(range(1, tot + 1), min(tot, rng.randint(1, 9))))
+    cuts = sorted(c for c in cuts if 0 < c < tot) + [tot]
+    members, pos = [], 0
+    for c in cuts:
+        members.append([c - pos, rng.choice('bbgz')])
+        pos = c
+        if rng.random() < 0.25:
+            members.append([0, rng.choice('ebgz')])     # an empty member (e.g. an EOF block in the middle)
+    if rng.random() < 0.3:
+        members.insert(0, [0, rng.choice('eb')])
+    return dict(kind='members', members=members, eof=rng.random() < 0.8)
+
+
+def _member_ks(rng, case):
+    """chunk sizes whose chunk borders fall on / next to member borders"""
+    sz = _sizes(case)
+    if not sz:
+        return [7]
+    big = max(sz)
+    hdr = len(enc_header(bytes.fromhex(case['text']), case['refs']))
+    ks = {big, big + 1}
+    pos = 0
+    for n, _ in case['container']['members']:
+        pos += n
+        if pos - hdr >= big:
+            ks |= {pos - hdr, pos - hdr + 1, pos - hdr - 1}
+        for d in (2, 3):
+            if pos - hdr > 0 and (pos - hdr) % d == 0 and (pos - hdr) // d >= big:
+                ks.add((pos - hdr) // d)
+    ks = sorted(k for k in ks if k >= big)
+    if len(ks) > 5:
+        ks = sorted({ks[0]} | set(rng.sample(ks, 4)))
+    return ks
 
 
 def _refs(rng, n):
@@ -281,7 +435,7 @@ def _writes(rng, case, n_extra=2):
     return ws
 
 
-def _mk(rng, refs, recs, container=None, ks=6, n_writes=2, text=None):
+def _mk(rng, refs, recs, container=None, ks=6, n_writes=2, text=None, light=False, members=None):
     if text is None:
         text = rng.choice([b'', b'@HD\tVN:1.6\tSO:unsorted\n', b'@HD\tVN:1.0\n@PG\tID:x\n', b'@CO\tno newline at end'])
     case = dict(text=text.hex(), refs=refs, recs=recs)
@@ -298,9 +452,15 @@ def _mk(rng, refs, recs, container=None, ks=6, n_writes=2, text=None):
                 pos += b
             container = dict(kind='bgzf', blocks=blocks)
     case['container'] = container
-    case['ks'] = _ks(rng, case, ks)
+    if members is not None:
+        case['container'] = _members(rng, case, members)
+    case['ks'] = _ks(rng, case, ks) if members is None else _member_ks(rng, case)
     case['writes'] = _writes(rng, case, n_writes)
+    if light:                       # a light case: at most one selection write besides the whole write
+        case['writes'] = case['writes'][:1] + rng.sample(case['writes'][1:], min(1, len(case['writes']) - 1))
     case['order'] = rng.sample(range(9), 9)
+    if light and rng.random() < 0.75:
+        return case                 # no companion file (two-file sessions) in three of four light cases
     # a second BAM file with a DIFFERENT reference dictionary (same number of references, or another number) that is
     # open in the same process while this file is read (two-file sessions)
     pool = [nm for nm in ['chr1', 'chr2', 'chrX_random', 'c', '10', 'chrUn_KI270', 'MT', 'HLA-A*01:01', 'a' * 40, 'zz', 'chr9']
@@ -368,6 +528,85 @@ def generate(tier, seed):
             recs[j + 1 if j + 1 < nrec - 1 else j - 1] = dict(recs[j], pos=rng.randrange(1000) if recs[j]['ref'] >= 0 else -1,
                                                                 mapq=rng.choice([3, 17, 42]), seq=[(c + 1) % 16 for c in recs[j]['seq']])
         cases.append(_mk(rng, refs, recs, ks=6, n_writes=5 if t % 3 == 0 else 2))
+
+    # 5. auxiliary (TAG) area: every value type A c C s S i I f Z H B alone and mixed; aux areas of every length 0, 4..;
+    #    the same record with and without its tags in one file
+    types = 'AcCsSiIfZHB'
+    for t in range(len(types) + 8 if not thorough else 40):
+        refs = _refs(rng, rng.randint(1, 3))
+        recs = []
+        for j in range(rng.randint(2, 4)):
+            ty = [types[(t + j) % len(types)]] if t < len(types) else None
+            recs.append(_rec(rng, len(refs), name_len=rng.randint(1, 9), n_cigar=rng.randint(0, 4), l_seq=rng.randint(0, 9),
+                             tags=_aux_area(rng, ty), end10=(j == 1 and t % 4 == 0)))
+        bare = dict(recs[0], tags='')            # the first record once more without its auxiliary area
+        recs.insert(rng.randint(0, len(recs)), bare)
+        cases.append(_mk(rng, refs, recs, ks=3, light=True))
+    for t in range(0, 64 if not thorough else 120, 4):
+        refs = _refs(rng, 1)
+        base = _rec(rng, 1, name_len=rng.randint(1, 5), n_cigar=rng.randint(0, 2), l_seq=1 + t % 5, unmapped=False, tags=False)
+        recs = [dict(base, pos=j, tags=_aux_of_len(0 if t + j == 0 else t + j + 3).hex(), name=(b'n%d' % j).hex() + base['name'] * (j % 2))
+                for j in range(4)]
+        cases.append(_mk(rng, refs, recs, ks=3, light=True))
+    # 6. records at the limits.  6a: every read-name length 1..254 (l_read_name 2..255), three per file
+    lens = list(range(1, 255))
+    for g in range(0, len(lens), 3):
+        refs = _refs(rng, 1 + g % 3)
+        recs = [_limit_rec(rng, len(refs), name_len=nl, tags=(b'' if (g + j) % 3 else _aux_area(rng, n=1)),
+                           l_seq=(g + j) % 7, n_cigar=(g // 3 + j) % 4) for j, nl in enumerate(lens[g:g + 3])]
+        cases.append(_mk(rng, refs, recs, ks=2, light=True, container=dict(kind='gzip') if g % 2 else None))
+    # 6b: position -1 / 0 / 2^31-1, refID -1 with a mapped mate, negative next_refID / next_pos / tlen
+    for t in range(24 if not thorough else 60):
+        refs = _refs(rng, rng.randint(1, 3))
+        n = len(refs)
+        recs = [
+            _no_ref_len(_limit_rec(rng, n, pos=2 ** 31 - 1, npos=2 ** 31 - 1, tlen=2 ** 31 - 1)),
+            _limit_rec(rng, n, pos=-1, npos=-1, nref=-1, tlen=-2 ** 31),
+            _limit_rec(rng, n, unmapped=True, pos=rng.choice([-1, 0, 2 ** 31 - 1 - 2 ** 29]), nref=rng.randrange(n),
+                       npos=rng.choice([0, 5, 2 ** 31 - 1]), tlen=rng.choice([-1, -2 ** 31, 0])),
+            _limit_rec(rng, n, pos=0, nref=-1, npos=-1, tlen=-1, n_cigar=0, l_seq=rng.choice([0, 1, 2])),
+        ]
+        recs[2]['flag'] = (recs[2]['flag'] | 4) & ~8          # unmapped read, mapped mate
+        rng.shuffle(recs)
+        cases.append(_mk(rng, refs, recs[:rng.randint(2, 4)] if t % 3 else recs, ks=3, light=True))
+    # 6c: each of the 12 defined flag bits alone, all twelve, all sixteen; with and without 0x10
+    for t in range(0, 12, 3):
+        refs = _refs(rng, 2)
+        recs = [_limit_rec(rng, 2, flag=FLAG_BITS12[t + j], name_len=1 + j, l_seq=j) for j in range(3)]
+        recs.append(_limit_rec(rng, 2, flag=rng.choice([4095, 4095 - 16, 65535, 65535 - 16]), name_len=5))
+        for r in recs:
+            if r['ref'] < 0:
+                r['flag'] |= 4
+        cases.append(_mk(rng, refs, recs, ks=2, light=True))
+    # 6d: n_cigar_op at its boundaries: 0 next to 65535 operations (and 65534 / 32768 in the thorough tier); whole read
+    #     and interval views only (the case is large); placed first among the generated cases so that its Coq file starts early
+    for nops in ([65535] if not thorough else [65535, 65534, 32768]):
+        refs = _refs(rng, 1)
+        big = _limit_rec(rng, 1, name_len=3, l_seq=3, n_cigar=0)
+        big['cigar'], big['cigar_repeat'] = [[0, 1], [1, 2], [2, 3], [4, 1], [3, 5]], nops // 5
+        if nops % 5:
+            big['cigar'], big['cigar_repeat'] = [[0, 1], [1, 2]], nops // 2
+        small = _limit_rec(rng, 1, name_len=2, l_seq=2, n_cigar=0)
+        c = _mk(rng, refs, [small, big, dict(small, pos=9)], ks=2, light=True, container=dict(kind='gzip'))
+        c['ks'], c['writes'] = [], []
+        c.pop('other', None)
+        cases.insert(0, c)
+    # 7. files of several gzip members (BGZF blocks, plain gzip members, empty members): member borders on record
+    #    borders, inside block_size fields, next to record borders, one-byte members, inside the header; chunk sizes
+    #    whose borders coincide with member borders
+    hows = ['on', 'in_size', 'near', 'bytes', 'header', 'random']
+    for t in range(132 if not thorough else 300):
+        nrefs = rng.choice([0, 1, 2, 3])
+        refs = _refs(rng, nrefs)
+        recs = [_rec(rng, nrefs, name_len=rng.choice([1, 2, 5, 9, 30]), n_cigar=rng.randint(0, 4), l_seq=rng.randint(0, 12),
+                     end10=(rng.random() < 0.15)) for _ in range(rng.choice([2, 3, 4, 6]))]
+        cases.append(_mk(rng, refs, recs, light=True, members=hows[t % len(hows)]))
+    # 8. more random files (light: fewer chunk sizes and writes)
+    for t in range(190 if not thorough else 250):
+        nrefs = rng.choice([0, 1, 2, 3, 3])
+        refs = _refs(rng, nrefs)
+        recs = [_rec(rng, nrefs, end10=(rng.random() < 0.15)) for _ in range(rng.choice([2, 3, 4, 5]))]
+        cases.append(_mk(rng, refs, recs, ks=3, light=True))
     return cases
 
 
@@ -628,6 +867,17 @@ def _ohex(x):
 BAD_OREC = [None, 'ff', -1, -1, -1, None, [], 'ff', 'ff']
 
 
+def _zl_big(xs):
+    """list of ints -> Coq list Z; a long periodic list (the lengths of a many-operation CIGAR) is emitted as a
+    repeated block so that the case file stays small"""
+    n = len(xs)
+    if n > 512:
+        for p in range(1, 17):
+            if xs == (xs[:p] * (n // p + 1))[:n]:
+                return '(List.firstn (Z.to_nat %d) (List.concat (List.repeat %s (Z.to_nat %d))))' % (n, zl(xs[:p]), n // p + 1)
+    return zl(xs)
+
+
 def _orec(r):
     r = list(r)
     for i in (1, 7, 8):
@@ -640,7 +890,7 @@ def _orec(r):
         r[6] = [-7]
     return ('{| o_chrom := %s; o_name := %s; o_flag := %s; o_pos := %s; o_mapq := %s; o_ops := %s; o_lens := %s; '
             'o_seq := %s; o_qual := %s |}' % (_ohex(r[0]), hx(bytes.fromhex(r[1])), cz(r[2]), cz(r[3]), cz(r[4]),
-                                              _ohex(r[5]), zl(r[6]), hx(bytes.fromhex(r[7])), hx(bytes.fromhex(r[8]))))
+                                              _ohex(r[5]), _zl_big(r[6]), hx(bytes.fromhex(r[7])), hx(bytes.fromhex(r[8]))))
 
 
 def _orecs(rs):
@@ -737,13 +987,31 @@ def describe(case, o):
 
 def distribution(cases, obs):
     d = dict(records={}, references={}, unmapped_records=0, odd_l_seq=0, even_l_seq=0, zero_l_seq=0, cigar_ops={}, name_len_254=0,
-             tagged=0, bgzf=0, gzip=0, chunk_sizes=0, writes=0, last_byte_newline=0)
+             tagged=0, bgzf=0, gzip=0, members=0, chunk_sizes=0, writes=0, last_byte_newline=0,
+             name_lengths_seen=0, aux_types={}, n_cigar_65535=0, pos_minus1=0, pos_int32_max=0, unmapped_with_mapped_mate=0,
+             negative_next_ref=0, negative_next_pos=0, negative_tlen=0, flag_bits_seen=0, empty_members=0,
+             member_border_inside_block_size=0, member_border_on_record_border=0, gzip_members=0)
+    names_seen, bits = set(), 0
     for c in cases:
         k = str(len(c['recs']))
         d['records'][k] = d['records'].get(k, 0) + 1
         k = str(len(c['refs']))
         d['references'][k] = d['references'].get(k, 0) + 1
         d[c['container']['kind']] += 1
+        if c['container']['kind'] == 'members':
+            hdr = len(enc_header(bytes.fromhex(c['text']), c['refs']))
+            starts, acc = [], hdr
+            for r in c['recs']:
+                starts.append(acc)
+                acc += len(enc_rec(r))
+            pos = 0
+            for n, how in c['container']['members']:
+                d['gzip_members'] += 1
+                d['empty_members'] += n == 0
+                pos += n
+                if n and pos < acc:
+                    d['member_border_on_record_border'] += pos in starts
+                    d['member_border_inside_block_size'] += any(0 < pos - s0 < 4 for s0 in starts)
         d['chunk_sizes'] += len(c['ks'])
         d['writes'] += len(c['writes'])
         for r in c['recs']:
@@ -756,8 +1024,22 @@ def distribution(cases, obs):
             d['cigar_ops'][nc] = d['cigar_ops'].get(nc, 0) + 1
             d['name_len_254'] += len(r['name']) == 508
             d['tagged'] += len(r['tags']) > 0
+            names_seen.add(len(r['name']) // 2)
+            bits |= r['flag']
+            d['n_cigar_65535'] += len(_cigar(r)) == 65535
+            d['pos_minus1'] += r['pos'] == -1
+            d['pos_int32_max'] += r['pos'] == 2 ** 31 - 1
+            d['unmapped_with_mapped_mate'] += r['ref'] < 0 and r['nref'] >= 0
+            d['negative_next_ref'] += r['nref'] < 0
+            d['negative_next_pos'] += r['npos'] < 0
+            d['negative_tlen'] += r['tlen'] < 0
+            tb = bytes.fromhex(r['tags'])
+            if len(tb) >= 3 and chr(tb[2]) in 'AcCsSiIfZHB':
+                d['aux_types'][chr(tb[2])] = d['aux_types'].get(chr(tb[2]), 0) + 1
         if c['recs'] and enc_rec(c['recs'][-1])[-1] == 10:
             d['last_byte_newline'] += 1
+    d['name_lengths_seen'] = len(names_seen)
+    d['flag_bits_seen'] = bin(bits & 0xfff).count('1')
     return d
 
 
